@@ -128,3 +128,19 @@ package stanza
 //@     assert[C13] data != "" && arg1.Name.Local == "text" && arg1.Name.Space == NSError
 //@     assert[C13] lang == "" ==> len(arg1.Attr) == 0
 //@     assert[C13] lang != "" ==> len(arg1.Attr) == 1 && arg1.Attr[0].Value == lang && arg1.Attr[0].Name.Local == "lang" && arg1.Attr[0].Name.Space == "http://www.w3.org/XML/1998/namespace"
+
+// C14/C13: the presence type the multiplexer routes on is the value of the
+// last `type` attribute that is unqualified or in the stanza's own namespace;
+// attributes in any other namespace never set it.
+//@ spec ownAttr(a xml.Attr, n xml.Name) bool = !(a.Name.Local == "lang" && a.Name.Space == "http://www.w3.org/XML/1998/namespace") && (a.Name.Space == "" || a.Name.Space == n.Space)
+//@ spec ownType(a xml.Attr, n xml.Name) bool = ownAttr(a, n) && a.Name.Local == "type"
+//@ func NewPresence
+//@   ensures[C13,C14] result1 == nil ==> forall k int :: 0 <= k && k < len(start.Attr) && ownType(start.Attr[k], start.Name) && (forall j int :: k < j && j < len(start.Attr) ==> !ownType(start.Attr[j], start.Name)) ==> string(result0.Type) == start.Attr[k].Value
+//@   ensures[C13,C14] result1 == nil && (forall k int :: 0 <= k && k < len(start.Attr) ==> !ownType(start.Attr[k], start.Name)) ==> string(result0.Type) == ""
+//@   ensures[C13,C14] result0.XMLName == start.Name
+//@   callsite mellium.im/xmpp/jid.Parse#*
+//@     preserves start.Attr
+//@   loop 1
+//@     invariant[C13,C14] rangeindex < len(start.Attr) && v.XMLName == start.Name
+//@     invariant[C13,C14] forall k int :: 0 <= k && k <= rangeindex && ownType(start.Attr[k], start.Name) && (forall j int :: k < j && j <= rangeindex ==> !ownType(start.Attr[j], start.Name)) ==> string(v.Type) == start.Attr[k].Value
+//@     invariant[C13,C14] (forall k int :: 0 <= k && k <= rangeindex ==> !ownType(start.Attr[k], start.Name)) ==> string(v.Type) == ""
